@@ -216,7 +216,10 @@ Loop:
 			// process the redis moved/ask packet
 			case codec.MovedOrAsk:
 				addr, slot := r.parseMovedOrAsk()
-				el.eventHandler.OnMoved(addr, slot, s, r)
+				if !el.eventHandler.OnMoved(addr, slot, s, r) {
+					// the node named by the redirect is unknown or unreachable
+					el.failFrag(r, codec.ErrUnKnownProxyPoolError)
+				}
 				continue
 
 			// The current message has been processed, continue to process the next message
@@ -275,6 +278,39 @@ Loop:
 }
 
 const iovMax = 1024
+
+// failFrag completes the request a fragment belongs to with an error reply (the backend that should
+// have answered it is gone or unknown) and delivers what has become deliverable to its client.
+func (el *eventloop) failFrag(f *Frag, e codec.Error) {
+	if f.Owner == nil || f.Peer == nil || f.Done || f.Peer.Done {
+		return
+	}
+	msg := f.Peer
+	msg.Error = e
+	msg.RspBody = append(msg.RspBody[:0], e.Bytes()...)
+	msg.FragDoneNumber = len(msg.Body)
+	msg.Done = true
+	for _, v := range msg.Body {
+		v.Done = true
+	}
+	if c, ok := f.Owner.(*conn); ok && c.opened {
+		el.flushClient(c)
+	}
+}
+
+// failFrags answers every request that was queued for, or in flight on, a backend connection that
+// is being closed; without it their clients would wait forever.
+func (el *eventloop) failFrags(s *conn) {
+	for _, q := range []*FragQueue{s.inFragQueue, s.outFragQueue} {
+		if q == nil {
+			continue
+		}
+		for f := q.head; f != nil; f = f.prev {
+			deleteFromTimeoutQueue(f)
+			el.failFrag(f, codec.ErrUnKnownProxyPoolConnError)
+		}
+	}
+}
 
 // flushClient writes the replies of the longest completed prefix of the client's request queue to
 // the client, in request order, and releases those requests.
@@ -404,6 +440,7 @@ func (el *eventloop) closeConn(c *conn, err error, closeType ConnCloseType) (rer
 			GlobalStats.ClientConnectionsClientErr.WithLabelValues().Inc()
 		}
 	case ConnServer:
+		el.failFrags(c)
 		el.eventHandler.OnSClosed(c, err)
 		el.addSConn(-1)
 		switch closeType {
